@@ -154,10 +154,19 @@ func c02observe(db *Interface, dbName, ns string, ref map[string]*c02ref) string
 		}
 	}
 	for _, prefix := range []string{"", "x", "x/", "xy", "x/c", "x/c/d", "z", "y"} {
-		for _, minScore := range []int{-1, 2} {
+		for ci, minScore := range []int{-1, 2, -2, -3} {
 			qq := q.New(dbName + ":" + ns + prefix)
-			if minScore >= 0 {
+			switch {
+			case minScore >= 0:
 				qq = qq.Where(q.Where("Score", q.GreaterThan, minScore))
+			case ci == 2:
+				// a string operator on a string field: every record has Name "n"
+				qq = qq.Where(q.Where("Name", q.SameAs, "n"))
+				minScore = -1
+			case ci == 3:
+				// a string operator on a number field selects nothing, for typed and serialized records alike
+				qq = qq.Where(q.Or(q.Where("Score", q.StartsWith, "1"), q.Where("Score", q.SameAs, "2")))
+				minScore = 1 << 30
 			}
 			it, err := db.Query(qq.MustBeValid())
 			if err != nil {
@@ -179,7 +188,7 @@ func c02observe(db *Interface, dbName, ns string, ref map[string]*c02ref) string
 			sort.Strings(got)
 			sort.Strings(want)
 			if strings.Join(got, ",") != strings.Join(want, ",") {
-				return fmt.Sprintf("Query(prefix %q, Score > %d) yields [%s], want [%s]", prefix, minScore, strings.Join(got, ","), strings.Join(want, ","))
+				return fmt.Sprintf("Query(%s) yields [%s], want [%s]", qq.Print(), strings.Join(got, ","), strings.Join(want, ","))
 			}
 		}
 	}
@@ -293,7 +302,7 @@ func TestBoundedC02RefMap(t *testing.T) {
 		}
 		_ = ci
 	}
-	fmt.Printf("BOUNDED name=C02/reference-map cases=%d distinct=%d bound=every sequence of up to 2 operations (3 on one hashmap configuration in the thorough tier; on bbolt and fstree the first operation only on one key) out of %d operation instances (put, put-new, delete, put of an expired record, expiry in the past, expiry in the future on 5 keys sharing prefixes and path separators; record-state maintenance; maintenance) plus %d longer sequences (re-put after delete and maintenance, expiry then maintenance, double delete), on hashmap, bbolt and fstree x shadow delete on/off x read cache off/on; after every step Get and Exists of all keys and 16 queries (8 key prefixes incl. non-boundary prefixes x without/with a condition) are compared with a reference map\n",
+	fmt.Printf("BOUNDED name=C02/reference-map cases=%d distinct=%d bound=every sequence of up to 2 operations (3 on one hashmap configuration in the thorough tier; on bbolt and fstree the first operation only on one key) out of %d operation instances (put, put-new, delete, put of an expired record, expiry in the past, expiry in the future on 5 keys sharing prefixes and path separators; record-state maintenance; maintenance) plus %d longer sequences (re-put after delete and maintenance, expiry then maintenance, double delete), on hashmap, bbolt and fstree x shadow delete on/off x read cache off/on; after every step Get and Exists of all keys and 32 queries (8 key prefixes incl. non-boundary prefixes x no condition / integer condition / string condition / string operator on a number field) are compared with a reference map\n",
 		cases, cases, len(ops), len(extra))
 	if fails > 0 {
 		t.Fatalf("%d of %d sequences differ from the reference map", fails, cases)
